@@ -33,7 +33,7 @@ structure Engine where
 def engines : List (String × Engine) := [
   ("store-seq", ⟨Driver.Store.St, Driver.Store.init, Driver.Store.stepLine⟩),
   ("watch", ⟨WSys, Driver.Watch.init, Driver.Watch.stepLine⟩),
-  ("helpers", ⟨HSys, Driver.Helpers.init, Driver.Helpers.stepLine⟩),
+  ("helpers", ⟨Driver.Helpers.St, Driver.Helpers.init, Driver.Helpers.stepLine⟩),
   ("keystorage", ⟨Driver.KeyStorage.St, Driver.KeyStorage.init, Driver.KeyStorage.stepLine⟩),
   ("queue", ⟨Driver.Queue.St, Driver.Queue.init, Driver.Queue.stepQueue⟩),
   ("qreconcile", ⟨Driver.Queue.St, Driver.Queue.init, Driver.Queue.stepReconcileAny⟩),
